@@ -81,6 +81,18 @@ func (t *VariantType) Equals(o interface{}, g px.Guard) bool {
 	return ok && px.IncludesAll(t.types, ot.types, g) && px.IncludesAll(ot.types, t.types, g)
 }
 
+func (t *VariantType) Get(key string) (value px.Value, ok bool) {
+	switch key {
+	case `types`:
+		ts := make([]px.Value, len(t.types))
+		for i, t := range t.types {
+			ts[i] = t
+		}
+		return WrapValues(ts), true
+	}
+	return nil, false
+}
+
 func (t *VariantType) Generic() px.Type {
 	return &VariantType{UniqueTypes(alterTypes(t.types, generalize))}
 }
